@@ -61,3 +61,19 @@ Proof.
 Qed.
 
 End Lrec.
+
+(* ---- a concrete left-recursive parse: e = e '+' 'a' | 'a' on "a+a+a" grows the seed three times and folds to the left ---- *)
+Definition l_text : str := [97; 43; 97; 43; 97]%N.
+Definition l_ic : icfg := {| ws_re := None; cm_re := None; eol_re := None; nameguard := false; ignorecase := false; namechars := [] |}.
+Definition l_ec : ecfg := {| memoization := true; left_recursion := true; prune_on_cut := true; memo_cap := 16; parseinfo := false; keywords := [] |}.
+Definition l_rules : list rule :=
+  [{| r_name := 0; r_exp := Choice [Seq [Call 0; Leaf (LTok [43%N]); Leaf (LTok [97%N])]; Leaf (LTok [97%N])];
+      r_tokn := false; r_isname := false; r_nomemo := false; r_lrec := true; r_memo := false |}].
+Definition l_run := parse_with l_text (fun _ _ => None) (fun _ => false) (fun _ => false) (fun c => c) (fun c => c)
+                               l_ic [] l_rules l_ec (fun _ _ => ANone) (fun _ => 0) 40 0.
+Definition l_a := VStr [97%N].
+Definition l_plus := VStr [43%N].
+
+Lemma lrec_witness :
+  exists f, fst l_run = Ok (VList true [VList true [l_a; l_plus; l_a]; l_plus; l_a]) f /\ pos f = 5.
+Proof. eexists. split; vm_compute; reflexivity. Qed.
